@@ -103,6 +103,12 @@ pub struct HistCfg {
     pub empty_on_grid: bool,
     /// scan the whole initial chain in ONE batch first (a batch deeper than the pruning window)
     pub initial_one_batch: bool,
+    /// now and then `rewind_to_chain_state` to a target MORE than the pruning depth below the
+    /// highest scanned block (the chain itself does not change: the wallet forgets and re-scans)
+    pub deep_state_rewinds: bool,
+    /// now and then tell the wallet a chain tip exactly around 100 blocks above its highest scanned
+    /// block (the edge of the "last scanned block is stable" rule of `update_chain_tip`)
+    pub tip_at_stability_edge: bool,
 }
 
 impl HistCfg {
@@ -158,6 +164,8 @@ impl HistCfg {
             late_one_batch: false,
             empty_on_grid: false,
             initial_one_batch: false,
+            deep_state_rewinds: false,
+            tip_at_stability_edge: false,
         }
     }
 
@@ -269,6 +277,8 @@ pub enum Op {
     Scan { from: u32, limit: u32, ok: bool, err: Option<String> },
     Tip { h: u32 },
     Rewind { to: u32, actual: Option<u32>, f1: bool },
+    /// `rewind_to_chain_state(state at to)`; `floor` = highest block the wallet still holds afterwards
+    RewindToState { to: u32, ok: bool, floor: u32, err: Option<String> },
     PutRoots { pool: &'static str, index: u64 },
     Coin { account: usize, value: u64, height: u32 },
     Finish,
@@ -281,6 +291,7 @@ impl Op {
             Op::Scan { from, limit, ok, err } => json!({"op":"scan","from":from,"limit":limit,"ok":ok,"err":err}),
             Op::Tip { h } => json!({"op":"tip","h":h}),
             Op::Rewind { to, actual, f1 } => json!({"op":"rewind","to":to,"actual":actual,"f1":f1}),
+            Op::RewindToState { to, ok, floor, err } => json!({"op":"rewind_to_chain_state","to":to,"ok":ok,"floor":floor,"err":err}),
             Op::PutRoots { pool, index } => json!({"op":"put_subtree_roots","pool":pool,"index":index}),
             Op::Coin { account, value, height } => json!({"op":"coin","account":account,"value":value,"height":height}),
             Op::Finish => json!({"op":"finish"}),
@@ -319,6 +330,9 @@ pub struct Hist {
     pub batches_straddling_activation: u64,
     /// accepted rewinds that emptied the tree of a pool which had leaves in scanned blocks above
     pub rewinds_to_empty_tree: u64,
+    pub state_rewinds_done: u64,
+    pub state_rewinds_refused: u64,
+    pub tips_at_stability_edge: u64,
 }
 
 #[derive(Clone, Debug)]
@@ -405,6 +419,9 @@ impl Hist {
             coins: vec![],
             batches_straddling_activation: 0,
             rewinds_to_empty_tree: 0,
+            state_rewinds_done: 0,
+            state_rewinds_refused: 0,
+            tips_at_stability_edge: 0,
         }
     }
 
@@ -588,6 +605,36 @@ impl Hist {
         }
     }
 
+    /// `rewind_to_chain_state` to the (unchanged) chain's state at `to`: the wallet forgets what it
+    /// scanned above `to` as far down as its pruning floor and re-queues everything above `to`.
+    pub fn rewind_to_state(&mut self, to: u32) -> bool {
+        use zcash_client_backend::data_api::WalletWrite;
+        let res = self.w.db.rewind_to_chain_state(self.sim.state_at(to), std::collections::HashSet::new());
+        let floor: u32 = self.w.db.conn().query_row("SELECT MAX(height) FROM blocks", [], |r| r.get::<_, Option<u32>>(0)).ok().flatten().unwrap_or(to);
+        match res {
+            Ok(()) => {
+                self.w.forget_above(to);
+                // the trees were truncated at the floor (or at `to` when that is higher)
+                let sizes = self.sim.sizes_at(floor.max(to).min(self.sim.tip_height()));
+                let mut f1 = false;
+                for p in POOLS {
+                    f1 |= self.f1.on_truncate(p, sizes[p.idx()]);
+                }
+                if f1 {
+                    self.rewinds_f1 += 1;
+                }
+                self.state_rewinds_done += 1;
+                self.ops.push(Op::RewindToState { to, ok: true, floor, err: None });
+                true
+            }
+            Err(e) => {
+                self.state_rewinds_refused += 1;
+                self.ops.push(Op::RewindToState { to, ok: false, floor, err: Some(format!("{e:?}").chars().take(200).collect()) });
+                false
+            }
+        }
+    }
+
     /// Hands the wallet the true roots of subtrees the chain has completed (as a light client
     /// learns them from the server), at an arbitrary moment relative to scanning.
     fn put_completed_roots(&mut self) {
@@ -758,6 +805,32 @@ impl Hist {
         for _ in 0..self.cfg.steps {
             if self.aborted.is_some() || !r.time_left() {
                 break;
+            }
+            if self.cfg.deep_state_rewinds && self.state_rewinds_done < 3 && self.rng.gen_bool(0.2) {
+                if let Some(&top) = self.w.scanned.keys().next_back() {
+                    let span = top - self.sim.base_height();
+                    if span > 112 {
+                        let to = top - self.rng.gen_range(101..=(span - 1).min(190));
+                        self.rewind_to_state(to);
+                        self.call(mons, r);
+                        continue;
+                    }
+                }
+            }
+            if self.cfg.tip_at_stability_edge && self.rng.gen_bool(0.2) {
+                if let Some(&top) = self.w.scanned.keys().next_back() {
+                    let want = top + *[99u32, 100, 100, 100, 101, 101, 102, 110].choose(&mut self.rng).unwrap();
+                    let tip = self.sim.tip_height();
+                    if want > tip {
+                        self.mine(want - tip);
+                    }
+                    self.tips_at_stability_edge += 1;
+                    if let Err(e) = self.tip(want) {
+                        self.aborted = Some(format!("update_chain_tip({want}) failed: {e}"));
+                    }
+                    self.call(mons, r);
+                    continue;
+                }
             }
             let choice = self.rng.gen_range(0..100);
             let unscanned = self.unscanned_ranges();
